@@ -255,7 +255,7 @@ func (in *inst) Apply(op string) *mc.Fail {
 				for i, m := range menu {
 					if m.hash == it.Hash && in.model.valid(i) == nil && (arg == "pool" || len(txs) == 0) {
 						in.model.confirmed = append(in.model.confirmed, i)
-						txs = append(txs, m.real)
+						txs = append(txs, m.blk)
 					}
 				}
 			}
@@ -268,7 +268,7 @@ func (in *inst) Apply(op string) *mc.Fail {
 				in.cnt.add("block: one tx, not pooled")
 			}
 			in.model.confirmed = append(in.model.confirmed, i)
-			txs = []interfaces.Transaction{menu[i].real}
+			txs = []interfaces.Transaction{menu[i].blk}
 		}
 		in.connect(txs)
 	case "disc":
